@@ -724,6 +724,190 @@ def run_c03(ctx):
                           d.get('api'), d.get('kind'), d.get('ct'), d.get('fr'), d.get('precision'), d.get('delta'), d.get('jt'), d.get('et'), str(d.get('subject'))[:200]))
 
 
+# ------------------------------------------------------------------ C13
+OVERFLOW_KEY = 'int64-product-overflow'
+
+
+def max_diff_bits(sets):
+    xs = [v[0] for ps in sets for p in ps for v in p]
+    ys = [v[1] for ps in sets for p in ps for v in p]
+    if not xs:
+        return 0
+    return max(max(xs) - min(xs), max(ys) - min(ys)).bit_length()
+
+
+def run_c13(ctx):
+    n = _tier(ctx, 1500, 30000)
+    results, meta, summary = _stream(ctx, 'c13', n, 'none', _tier(ctx, 900, 5400))
+    _merge_dist(ctx, summary)
+    viol = []
+    for d in summary.get('direct_failures') or []:
+        e = {k: d.get(k) for k in ('subject', 'clip', 'ct', 'fr', 'mode', 'v', 'k', 'path', 'q')}
+        viol.append({'key': d.get('known_key') or fw.input_key(e), 'kind': d.get('kind'), 'text': str(d.get('kind')) + ' ' + str(d.get('panic', '')), 'detail': {'corpus_entry': e}})
+    seen = set()
+    for cid, res in results.items():
+        m = meta[cid]
+        ctx['evaluations'] += 1
+        entry = {k: m.get(k) for k in ('subject', 'clip', 'ct', 'fr', 'mode', 'v', 'k')}
+        key = fw.input_key(entry)
+        seen.add(key)
+        if len(ctx['samples']) < 3:
+            ctx['samples'].append(dict(entry, verdict=res.split()[0]))
+        if res.startswith('OK'):
+            continue
+        ct, fr = m['ct'], m['fr']
+        if m['mode'] == 'translate':
+            sets, band, r2 = [m['out_base'], m['out_back']], geom.closed_edges(m['subject']) + geom.closed_edges(m['clip']), 4
+            pred = lambda w: (w[0] % 2 != 0) == (w[1] % 2 != 0)
+            what = 'translation by %s' % m['v']
+            bits = 0
+        else:
+            S, C = m['ks'], m['kc']
+            sets, band, r2 = [S, C, m['out_scaled']], geom.closed_edges(S) + geom.closed_edges(C), geom.parse_q(m['r2'])
+            pred = lambda w: (w[2] % 2 != 0) == geom.expected(ct, geom.filled(fr, w[0]), geom.filled(fr, w[1]))
+            what = 'scaling by %d' % m['k']
+            bits = max_diff_bits([S, C])
+        conf = fw.confirm_region(sets, band, r2, pred, fw.parse_fail(res))
+        if not conf:
+            r2x = fw.recheck_deeper(ctx['root'], ctx['outdir'], [cid]).get(cid, '')
+            if r2x.startswith('OK'):
+                continue
+        k = key
+        if lobe_known(m, conf):
+            k = LOBE_KEY
+        elif conf and bits >= 32:
+            k = OVERFLOW_KEY
+        v = {'key': k, 'kind': 'magnitude', 'detail': {'corpus_entry': entry, 'checker': res, 'confirmed': conf, 'max_difference_bits': bits}}
+        if conf:
+            v['text'] = '%s (clip type %d, fill rule %d): region differs at point (%s, %s), windings %s; largest coordinate difference has %d bits' % (what, ct, fr, conf['point'][0], conf['point'][1], conf['windings'], bits)
+        else:
+            v['text'] = '%s: certificate rejected (%s)' % (what, res[:80])
+            v['no_input'] = True
+        viol.append(v)
+    ctx['nontrivial'] += len(seen)
+    return viol
+
+
+# ------------------------------------------------------------------ C16
+def perp2_exact(p, a, b):
+    c, d = b[0] - a[0], b[1] - a[1]
+    if c == 0 and d == 0:
+        return F(0)
+    x, y = p[0] - a[0], p[1] - a[1]
+    return F((x * d - c * y) ** 2, c * c + d * d)
+
+
+def simplify_clauses(p, eps, closed, out, m):
+    bad = []
+    if not is_subseq(out, p):
+        return ['not-a-subsequence']
+    if len(p) < 4 and out != p:
+        bad.append('short-path-changed')
+    if not closed and len(p) >= 4 and out and (out[0] != p[0] or out[-1] != p[-1]):
+        bad.append('open-end-points-not-kept')
+    n = len(out)
+    e2 = F(eps) * F(eps)
+    slack = F(1) - F(1, 1 << 40)
+    if n >= 3 and len(p) >= 4:
+        rng = range(n) if closed else range(1, n - 1)
+        for i in rng:
+            if perp2_exact(out[i], out[i - 1], out[(i + 1) % n]) <= e2 * slack and e2 > 0:
+                bad.append('retained-vertex-within-epsilon')
+                break
+            if e2 == 0 and cross3(out[i - 1], out[i], out[(i + 1) % n]) == 0 and out[i - 1] != out[(i + 1) % n] and False:
+                pass
+    if eps == 0 and closed and shoelace2([out]) != shoelace2([p]):
+        bad.append('area-changed-at-epsilon-0')
+    if m.get('retained') is not None:
+        if m.get('retained_translated') != m['retained']:
+            bad.append('retained-set-changes-under-translation')
+        if m.get('retained_scaled') != m['retained']:
+            bad.append('retained-set-changes-under-power-of-two-scaling')
+    return bad
+
+
+def run_c16(ctx):
+    n = _tier(ctx, 12000, 300000)
+    out, err = fw.run_stream(ctx['root'], ctx['workdir'], 'c16', ctx['seed'], n, [])
+    if out is None:
+        raise RuntimeError(err)
+    results, ncases, timed_out = fw.run_checker(ctx['root'], out, _tier(ctx, 600, 3600))
+    meta = fw.load_meta(out)
+    summary = json.load(open(os.path.join(out, 'summary.json')))
+    _merge_dist(ctx, summary)
+    viol, mismatches, ntriv = [], [], 0
+    for d in summary.get('direct_failures') or []:
+        e = {'path': d.get('path'), 'eps': d.get('eps'), 'closed': d.get('closed')}
+        viol.append({'key': fw.input_key(e), 'kind': d.get('kind'), 'text': 'SimplifyPath64(%s, %s, %s): %s %s' % (str(d.get('path'))[:200], d.get('eps'), d.get('closed'), d.get('kind'), d.get('panic', '')), 'detail': {'corpus_entry': e}})
+    for cid, res in results.items():
+        m = meta[cid]
+        ctx['evaluations'] += 1
+        if res.startswith('ERROR'):
+            raise RuntimeError(res)
+        t = res.split()
+        if cid.endswith('D'):
+            norm = lambda s: s if '/' in s else s + '/1'
+            want = [[norm(a), norm(b)] for a, b in m['godD']]
+            got = None if t[0] == 'NONE' else [[t[1 + 2 * i], t[2 + 2 * i]] for i in range(int(t[0]))]
+            if got != want:
+                mismatches.append({'case': 'SimplifyPathD', 'eps': m['eps'], 'closed': m['closed'], 'go': want, 'model': got})
+            continue
+        p, eps, closed, go = m['path'], m['eps'], m['closed'], m['go']
+        model = None if t[0] == 'NONE' else [[int(t[1 + 2 * i]), int(t[2 + 2 * i])] for i in range(int(t[0]))]
+        if model != go:
+            mismatches.append({'path': p, 'eps': eps, 'closed': closed, 'go': go, 'model': model})
+        if len(go) < len(p):
+            ntriv += 1
+            if len(ctx['samples']) < 3:
+                ctx['samples'].append({'path': p, 'eps': eps, 'closed': closed, 'go': go, 'model': model})
+        for cl in simplify_clauses(p, eps, closed, go, m):
+            e = {'path': p, 'eps': eps, 'closed': closed}
+            viol.append({'key': fw.input_key(e), 'kind': cl, 'text': 'SimplifyPath64(%s, eps=%s, closed=%s) = %s: %s' % (str(p)[:300], eps, closed, str(go)[:200], cl),
+                         'detail': {'corpus_entry': e, 'go': go, 'model': model, 'retained': m.get('retained'), 'retained_translated': m.get('retained_translated'), 'retained_scaled': m.get('retained_scaled'), 'v': m.get('v'), 'k': m.get('k')}})
+    ctx['nontrivial'] += ntriv
+    uniq, out_v = set(), []
+    for v in viol:
+        if v['kind'] in uniq:
+            continue
+        uniq.add(v['kind'])
+        out_v.append(v)
+    return k1_finish(ctx, 'C16', out_v, mismatches, 'SimplifyPath64/SimplifyPathD')
+
+
+# ------------------------------------------------------------------ C18
+def run_c18(ctx):
+    root = ctx['root']
+    facts = open(os.path.join(root, 'coq', 'Gen', 'Facts_gen.v')).read()
+    ctx['samples'].append({'generated_facts': [l for l in facts.splitlines() if l.startswith('Definition')]})
+    ctx['notes'].append('Gen/Facts_gen.v is regenerated from /repo by build.sh (vh scan) on every run before the theorems are re-checked')
+    rounds = _tier(ctx, 4, 60)
+    env = dict(fw.ENV)
+    env['VERIF_SEED'] = str(ctx['seed'])
+    env['VERIF_RACE_ROUNDS'] = str(rounds)
+    rc, out, dt = fw.sh(['go', 'test', '-race', '-tags', 'verif', '-run', 'TestConcurrent', '-count=1', '.'],
+                        cwd=os.path.join(root, 'harness'), timeout=_tier(ctx, 900, 3600), env=env)
+    nops = 18
+    ctx['evaluations'] += rounds * 32 * nops
+    ctx['nontrivial'] += rounds * nops
+    ctx['distribution']['race_rounds'] = rounds
+    ctx['distribution']['goroutines'] = 32
+    viol = []
+    if 'DATA RACE' in out:
+        import re as _re
+        first = out[out.index('DATA RACE'):][:1500]
+        viol.append({'key': 'data-race:' + fw.input_key(_re.sub(r'0x[0-9a-f]+|goroutine \d+', '', first)[:400]), 'kind': 'data-race',
+                     'text': 'go test -race reports a data race between concurrent independent calls: ' + ' '.join(first.split()[:40]),
+                     'detail': {'race_report': first, 'seed': ctx['seed'], 'rounds': rounds, 'replay': 'cd /verif/harness && VERIF_SEED=%d VERIF_RACE_ROUNDS=%d go test -race -tags verif -run TestConcurrent -count=1 .' % (ctx['seed'], rounds)}})
+    elif rc != 0:
+        lines = [l for l in out.splitlines() if 'returned a different result' in l or 'shared input modified' in l or 'panic' in l]
+        viol.append({'key': 'concurrent-result:' + fw.input_key(lines[:1]), 'kind': 'concurrent-result-differs',
+                     'text': 'concurrent run differs from the sequential run: ' + '; '.join(lines[:3]) if lines else 'concurrent test failed: ' + out[-400:],
+                     'detail': {'output': out[-3000:], 'seed': ctx['seed'], 'rounds': rounds}})
+    elif 'CONCURRENT-OK' not in out and 'ok' not in out:
+        raise RuntimeError('race run produced no verdict: ' + out[-500:])
+    return viol
+
+
 REGION_TRUST = [
     "the region checker is proved sound for every real point (Cert/RegionSound.v); what ties it to the code is that the implementation's actual outputs are fed to the extracted checker on every run (generated + corpus inputs): a defect no generated input triggers stays invisible",
     fw.REAL_AXIOMS,
@@ -779,6 +963,27 @@ PROPS = {
                   'PARTIAL: for the sweep, ClipperOffset and the rectangle clipper "terminates, does not panic, reports success" is OBSERVED, not proved: every exported entry point is driven under recover, a 20 s wall-clock limit and a success-flag check on hostile inputs; nil dereferences and unbounded loops inside the sweep are runtime behaviours no model here exhibits'],
         'rule': 'hostile path sets (nil, empty, empty paths, 1-2 points, repeated points, all-horizontal, all-collinear, out-and-back, on-rectangle-boundary, coincident polygons, coordinates up to 2^29) x 26 API groups x clip types 0..6 x fill rules 0..5 x precisions -9..12 x deltas 0..1e7 both signs x join types 0..4 x end types 0..5 x empty/inverted rectangles; evaluations = individual API calls; a case is non-trivial always (every case drives all 26 API groups)',
         'assumes': ['D-API inputs are scaled so that quantised magnitudes stay within 2^29 (beyond it int64 products wrap: recorded under C13)'],
+    },
+    'C13': {
+        'run': run_c13, 'level': 'proof', 'trust': REGION_TRUST + ['Model/Arith.v: explicit int64 wrap-around in the models of CrossProduct, dotProduct64, Area64, productsAreEqual'],
+        'rule': 'small base inputs (grids 4..100) x clip types x fill rules; translated by vectors of magnitude 2^20..2^52 and compared with the untranslated result; scaled by k up to extents 2^61 and certified against the exact boolean region with band 2 + 2^-40 x extent; Area64 and PointInPolygon compared exactly under translation; distinct = distinct (input, vector or factor)',
+        'assumes': [],
+    },
+    'C16': {
+        'run': run_c16, 'level': 'proof',
+        'trust': ['Model/Simplify.v: parametric Gallina model of the greedy removal loop (theorems for every distance function and comparison); Model/SimplifyF64.v: its float-faithful instance (binary64 = exact rational arithmetic + round-to-nearest-even at 53 bits, normal range only), compared exactly with SimplifyPath64 and SimplifyPathD outputs on every generated input',
+                  'gc on amd64 does not fuse multiply-add; NaN/Inf/subnormal distances are outside the model (they need |coords| beyond the generated range)',
+                  'lib/propdefs.py simplify_clauses: exact-rational statement of the property on the implementation outputs (2^-40 relative slack on the epsilon comparison so that float rounding is not an alarm)'],
+        'rule': 'trim-style paths, noisy lines, noisy circles, tie-rich zigzags, generic polygons x 12 epsilons + random ones x closed/open; each input also translated by up to 2^28 and scaled by 2^0..2^9 (with epsilon) to compare retained index sets; a third of the cases also through SimplifyPathD on the points/8; non-trivial = at least one vertex removed',
+        'assumes': [],
+    },
+    'C18': {
+        'run': run_c18, 'level': 'proof',
+        'trust': ['K3 scanner harness/scan.go: purely syntactic (go/ast) listing of package-level variables, writes/address-taking/inc-dec whose root is one of them, init functions, go/select/channel/sync uses, in the non-test non-verif files of /repo, regenerated on every run',
+                  'Model/Footprint.v: abstract interleaving model; its hypotheses (each call reads shared state and writes only private state) are what the regenerated facts support, not something proved of Go code',
+                  'PARTIAL: data-race freedom under the Go memory model (allocator, runtime, govalues/decimal internals) is not modelled; it is exercised by go test -race with 32 goroutines x 18 API groups on shared read-only inputs, results compared with the sequential run'],
+        'rule': 'per round: one random shared (subject, clip) input; 32 goroutines each run all 18 API groups (package functions and distinct engine / offset / rect-clip objects, including the functions that may return their argument) in rotated order under -race; evaluations = calls made concurrently; non-trivial = rounds x API groups',
+        'assumes': [],
     },
     'C02': {
         'run': run_c02, 'level': 'proof', 'trust': REGION_TRUST,
